@@ -36,7 +36,7 @@ func want(name string) bool {
 // Main is the driver. Modes: keygen (C03), sign (C01), otvole (C09), tamper (C04).
 func Main(args []string) int {
 	fs := flag.NewFlagSet("prodproto", flag.ContinueOnError)
-	mode := fs.String("mode", "keygen", "keygen | sign | otvole | tamper")
+	mode := fs.String("mode", "keygen", "keygen | sign | otvole | tamper | otdev")
 	out := fs.String("out", "trace.ndjson", "trace file")
 	sd := fs.Uint64("seed", 1, "seed")
 	tier := fs.String("tier", "quick", "quick | thorough")
@@ -76,6 +76,8 @@ func Main(args []string) int {
 		runOTVole()
 	case "tamper":
 		runTamper(*stride, *startAt, *intent != "")
+	case "otdev":
+		runOTVoleDev(*stride)
 	default:
 		fmt.Println("unknown mode")
 		return 2
